@@ -98,6 +98,20 @@ CLAIMED['C13'] = dict(
     note='Coq kernel; no axioms (PrimFloat primitives are kernel primitives, used only in the tested float model, not in the theorems); real clock and sleep are replaced by a '
          'scripted clock; float rounding is outside the theorems (known finding for ticks >= 2**53).',
     technique='Coq proof over rationals (induction, lra/field) + bit-exact PrimFloat model evaluated by the kernel + correspondence with a scripted clock', design='5/C13')
+CLAIMED['C16'] = dict(
+    text='Theorems over a model of a MidiFile object (type, ticks_per_beat, tracks, merged_track memo): for ANY history of documented edits interleaved with '
+         'observations, an observation equals that of a freshly built file with the same contents, and earlier observations change nothing; the memoised variant of '
+         'the tree before the repair is refuted by a Coq witness. The correspondence runs the same histories on a real MidiFile and compares merged_track with the '
+         'model and merged_track/iteration/length/play/save with a fresh deep copy.',
+    note='Coq kernel; no axioms; the theorem is about the model of the repaired code (no hidden state), so its weight is in the correspondence, which would expose any reintroduced caching.',
+    technique='Coq proof (induction over edit/observe histories) + model/implementation correspondence against a freshly built object', design='5/C16')
+CLAIMED['C17'] = dict(
+    text='Theorems over a model of the process-wide charset and the meta_charset context manager around _load/_save: for EVERY assignment of codecs to charsets and '
+         'every call, succeeding or raising at any point, the charset afterwards is what it was before (lifted to all call histories), so text encoded elsewhere uses '
+         'latin1 again; inside the call the file charset is in force; text survives save/load with any codec that decodes what it encodes, and the payload bytes are the '
+         'encoded text. The unguarded context manager of the tree before the repair is refuted. The correspondence fails loads at EVERY byte offset and saves at the n-th message for 9 charsets.',
+    note='Coq kernel; no axioms; Python codecs other than latin-1/ASCII are assumed to decode what they encode (hypothesis of the theorem).',
+    technique='Coq proof (state-passing model of the context manager, all outcomes) + fault-point enumeration on the implementation', design='5/C17')
 NOT_YET = {}
 ALL = ['C%02d' % i for i in range(1, 21)]
 
